@@ -102,6 +102,10 @@ fn process_cpu_ms() -> u64 {
     }
 }
 
+/// set while the harness itself waits for a child process (the sanitizer build and runs of C18): the process is idle
+/// then, and not deadlocked
+pub static WAITING_FOR_CHILD: std::sync::atomic::AtomicBool = std::sync::atomic::AtomicBool::new(false);
+
 fn stop_after() -> Option<u64> {
     static CELL: std::sync::OnceLock<Option<u64>> = std::sync::OnceLock::new();
     *CELL.get_or_init(|| std::env::var("VERIF_STOP_AFTER").ok().and_then(|s| s.parse().ok()))
@@ -158,7 +162,7 @@ impl Ctx {
                         idle_since = now;
                     }
                     let cpu_now = process_cpu_ms();
-                    if cpu_now > idle_cpu + 40 {
+                    if cpu_now > idle_cpu + 40 || WAITING_FOR_CHILD.load(Ordering::Relaxed) {
                         idle_cpu = cpu_now;
                         idle_since = now;
                     } else if now > idle_since + 30_000 {
